@@ -21,7 +21,9 @@ RULE = ('case kinds: config = (rows, grid, box, cores, stripes) sweeps on 20-col
         'of arrival (delay before the barrier) x departure (delay after the barrier) order at both synchronisation '
         'points, compared bit-for-bit with an undelayed reference; workers = same layout, different pool sizes; '
         'stripes = stripe-count sweep on noise+gradient+offset images; fault = one injected failure (raise / hard '
-        'exit) per stripe x hook point.  An evaluation is one call of BANE.filter_image in a fresh process; it is '
+        'exit) per stripe x hook point; blank = images with a band of blank rows wide enough that a whole stripe and its '
+        'margins hold no finite pixel, mask pass on and off; slow = one stripe held back 33-125 s at the start or just '
+        'before a barrier (bit-identical result required).  An evaluation is one call of BANE.filter_image in a fresh process; it is '
         'non-trivial when the event log shows >= 2 stripes ran (or a fault/hang was observed); distinct = distinct '
         '(kind, layout, plan) tuples.')
 ASSUMPTIONS = ['hook event timestamps come from CLOCK_MONOTONIC which is system-wide on Linux',
@@ -29,7 +31,7 @@ ASSUMPTIONS = ['hook event timestamps come from CLOCK_MONOTONIC which is system-
                'process of the run is blocked (workers in Barrier.wait or idle, parent in AsyncResult.get) while the '
                'event log does not move; a watchdog firing without certificate is inconclusive',
                'interleavings inside numpy or inside multiprocessing internals are not controlled']
-MIN_COUNTERS = {'interrupts_delivered': 2, 'schedule_cases_with_sliver_stripe': 2, 'runs_ok': 20, 'hook_events': 200, 'multi_stripe_runs': 10}
+MIN_COUNTERS = {'blank_band_runs': 6, 'blank_band_runs_with_a_wholly_blank_stripe': 2, 'slow_stripe_runs': 2, 'interrupts_delivered': 2, 'schedule_cases_with_sliver_stripe': 2, 'runs_ok': 20, 'hook_events': 200, 'multi_stripe_runs': 10}
 BATCHES_PER_JOB = 4
 KNOWN_EXIT = 'worker-killed-without-raising'
 
@@ -133,6 +135,24 @@ def cases(seed, tier):
     for rows, g, k in ([(64, 16, 2), (96, 8, 3)] if tier == 'quick' else [(64, 16, 2), (96, 8, 3), (120, 8, 4)]):
         for point in (('after_barrier1', 'bkg_subtracted') if tier == 'quick' else ('start', 'after_barrier1', 'bkg_subtracted', 'after_barrier2')):
             out.append({'kind': 'interrupt', 'rows': rows, 'grid': g, 'k': k, 'point': point, 'seed': [seed, 'int']})
+    # ---- 7. blank bands: stripes whose whole cut-out (own rows + margin) holds no finite pixel (mosaic padding), mask on/off
+    bl = [(96, 48, 8, 16, 3, 3, 0, 40), (96, 48, 8, 16, 3, 3, 56, 96), (120, 30, 8, 16, 2, 4, 40, 80), (64, 24, 4, 8, 2, 2, 0, 64)]
+    if tier != 'quick':
+        for i in range(12):
+            rows = int(rng.integers(60, 200))
+            g = int(rng.choice([4, 8, 16]))
+            k = int(rng.integers(2, 6))
+            lo = int(rng.integers(0, rows // 2))
+            hi = int(min(rows, lo + rng.integers(rows // 3, rows)))
+            bl.append((rows, int(rng.integers(20, 60)), g, 2 * g, int(rng.integers(2, 5)), k, lo, hi))
+    out.append({'kind': 'blank', 'confs': bl[:4], 'seed': [seed, 'blank', 0]})
+    for i in range(4, len(bl), 4):
+        out.append({'kind': 'blank', 'confs': bl[i:i + 4], 'seed': [seed, 'blank', i]})
+    # ---- 8. one slow stripe: a stripe reaching a synchronisation point (or the start) tens of seconds after the others
+    #         (a big image with one cheap stripe, a loaded machine) must only make the call slower
+    for (pt, d) in ([('start', 41.0), ('rms_written', 33.0)] if tier == 'quick' else
+                    [('start', 41.0), ('bkg_written', 33.0), ('rms_written', 33.0), ('start', 125.0), ('bkg_written', 95.0)]):
+        out.append({'kind': 'slow', 'rows': 96, 'grid': 8, 'k': 3, 'point': pt, 'delay': d, 'seed': [seed, 'slow', pt, d]})
     return out
 
 
@@ -268,6 +288,59 @@ def run(case):
                 _faults(o, case, base, stripes, sc)
         elif kind == 'stripes':
             _stripe_sweep(o, case, sc)
+        elif kind == 'blank':
+            specs = []
+            for i, (rows, cols, g, box, c, ns, lo, hi) in enumerate(case['confs']):
+                img = _image(rows, cols, 3, 'sloped')
+                img[lo:hi, :] = np.nan
+                im = os.path.join(sc, 'blank_%d.fits' % i)
+                bh.write_fits(im, img)
+                for m in (True, False):
+                    specs.append({'k': 2 * i + int(m), 'image': im, 'shape': [rows, cols], 'grid': [g, g], 'box': [box, box],
+                                  'cores': c, 'nslice': ns, 'mask': m, 'save': os.path.join(sc, 'bl%d_%d' % (i, int(m))),
+                                  'blank_rows': [lo, hi]})
+            res = bh.run_specs(specs, sc)
+            for sp_ in specs:
+                o.n_eval += 1
+                inf = _judge_ok_run(o, sp_, res[sp_['k']], 'image with rows %d..%d blank, mask=%s, %d stripes requested' % (
+                    sp_['blank_rows'][0], sp_['blank_rows'][1], sp_['mask'], sp_['nslice']))
+                if inf is None:
+                    continue
+                o.count('blank_band_runs')
+                lo, hi = sp_['blank_rows']
+                g = sp_['grid'][0]
+                if any(lo <= max(0, a - sp_['box'][0] // 2 - g) and min(sp_['shape'][0], b + sp_['box'][0] // 2 + g) <= hi
+                       for a, b in zip(inf['stripes'], inf['stripes'][1:] + [sp_['shape'][0]])):
+                    o.count('blank_band_runs_with_a_wholly_blank_stripe')
+                if sp_['mask']:
+                    bkg = np.load(sp_['save'] + '_bkg.npy')
+                    if np.isfinite(bkg[lo:hi]).any():
+                        o.violate('blank_rows_not_blank_in_masked_maps', {'rows': [lo, hi], 'finite': int(np.isfinite(bkg[lo:hi]).sum())})
+            o.sample = {'confs': case['confs'][:2]}
+        elif kind == 'slow':
+            rows, g, k = case['rows'], case['grid'], case['k']
+            im = os.path.join(sc, 'im.fits')
+            bh.write_fits(im, _image(rows, 24, 2, 'sloped'))
+            base = {'image': im, 'shape': [rows, 24], 'grid': [g, g], 'box': [2 * g, 2 * g], 'cores': k, 'nslice': k}
+            ref = dict(base, k=0, save=os.path.join(sc, 'ref'))
+            r0 = bh.run_specs([ref], sc)[0]
+            o.n_eval += 1
+            info = _judge_ok_run(o, ref, r0, 'undelayed reference run')
+            if info is None:
+                return o.result()
+            stripes = info['stripes']
+            plan = {'delay': {'%s:%d' % (case['point'], stripes[-1]): case['delay']}}
+            sp_ = dict(base, k=1, plan=plan, save=os.path.join(sc, 'slow'))
+            r1 = bh.run_specs([sp_], sc, hard_s=case['delay'] + 240.0)[1]
+            o.n_eval += 1
+            inf = _judge_ok_run(o, sp_, r1, 'stripe %d reaches %s %.0f s after the others' % (stripes[-1], case['point'], case['delay']))
+            if inf is not None:
+                o.count('slow_stripe_runs')
+                o.worst('slow_stripe_delay_s', case['delay'])
+                o.count('bit_comparisons')
+                if not (_same(sp_['save'] + '_bkg.npy', ref['save'] + '_bkg.npy') and _same(sp_['save'] + '_rms.npy', ref['save'] + '_rms.npy')):
+                    o.violate('schedule_changes_result', {'layout': [rows, g, k], 'plan': plan})
+            o.sample = {'layout': [rows, g, k], 'plan': plan}
         return o.result()
     finally:
         shutil.rmtree(sc, ignore_errors=True)
